@@ -262,7 +262,7 @@ func init() {
 		Assumptions: []string{"kernel preconditions: words below 10^19, dividend high word below the divisor, shift below 19", "the Go ABI0 frame layout", "flags left undefined by the manual are modelled as undefined: any use aborts"},
 		LevelText:   "Translation validation of the hand-written assembly against the portable Go twins: both are executed symbolically over the same input symbols and the solver proves the outputs equal for all word values, for every vector length, overlap pattern and shift count in the bound; the twins are proved equal to their mathematical definitions, and the build configurations are compared function by function.",
 		LevelNote:   "Trusted: the parser and instruction semantics of p9sym (validated against the assembled kernels through replay and the repository's own vectors), go/ssa, z3.",
-		Timeout:     map[string]time.Duration{"quick": 120 * time.Second, "thorough": 300 * time.Second},
+		Timeout:     map[string]time.Duration{"quick": 300 * time.Second, "thorough": 300 * time.Second},
 	})
 }
 
